@@ -301,6 +301,9 @@ fn dealer_direct(i: usize, seed: u64) -> Out {
     let k = [1usize, 3, 17, 64][(i / 4) % 4];
     let l_and = [1usize, 2, 9][(i / 16) % 3];
     let combo_seed: u64 = rng.random();
+    // every third session: one party hands in an AND operand whose bit is flipped while its MACs are
+    // left alone (the value the other parties' keys authenticate is the original one)
+    let cheat: Option<(usize, usize, usize)> = if i % 3 == 2 { Some(((i / 3) % n, (i / 7) % 2, (i / 11) % l_and)) } else { None };
     let (net, chans) = SimChan::new_set(n + 1, None);
     let res = {
         let mut futs: Vec<PartyFut<'_, DealerOut>> = vec![];
@@ -324,7 +327,13 @@ fn dealer_direct(i: usize, seed: u64) -> Out {
                         let b = xor_share(&shares[crng.random_range(0..shares.len())], &shares[crng.random_range(0..shares.len())]);
                         ab.push((a, b));
                     }
-                    let msg = Val::Vec(ab.iter().map(|(a, b)| Val::Tuple(vec![from_vshare(a), from_vshare(b)])).collect());
+                    let mut sent = ab.clone();
+                    if let Some((cp, which, t)) = cheat {
+                        if cp == p {
+                            if which == 0 { sent[t].0.bit ^= true } else { sent[t].1.bit ^= true }
+                        }
+                    }
+                    let msg = Val::Vec(sent.iter().map(|(a, b)| Val::Tuple(vec![from_vshare(a), from_vshare(b)])).collect());
                     ch.send_bytes_to(n, codec::to_bytes(&msg), "AND shares").await.map_err(e)?;
                     let z = ch.recv_bytes_from(n, "AND shares").await.map_err(e)?;
                     let Some(Val::Vec(zv)) = codec::decode_all(&Sch::Vec(Box::new(share_schema())), &z) else { return Err("AND shares do not decode".into()) };
@@ -342,7 +351,9 @@ fn dealer_direct(i: usize, seed: u64) -> Out {
     let mut relations = 0;
     let views: Vec<&PartyRes> = res.outcomes.iter().filter_map(|o| if let Outcome::Done(DealerOut::Client(Ok(r))) = o { Some(r) } else { None }).collect();
     let dealer_ok = matches!(res.outcomes.last(), Some(Outcome::Done(DealerOut::Dealer(Ok(())))));
-    if views.len() != n || !dealer_ok {
+    if cheat.is_some() && (views.len() != n || !dealer_ok) {
+        // the dealer refused the unauthenticated operand: nothing to judge
+    } else if views.len() != n || !dealer_ok {
         if matches!(res.end, RunEnd::AllFinished | RunEnd::Stuck) {
             let d: Vec<String> = res.outcomes.iter().map(|o| match o {
                 Outcome::Done(DealerOut::Client(Ok(_))) | Outcome::Done(DealerOut::Dealer(Ok(()))) | Outcome::Done(DealerOut::Mpc(Ok(_))) => "Ok".to_string(),
@@ -367,11 +378,14 @@ fn dealer_direct(i: usize, seed: u64) -> Out {
             let a = views.iter().fold(false, |x, v| x ^ v.ab[j].0.bit);
             let b = views.iter().fold(false, |x, v| x ^ v.ab[j].1.bit);
             let z = views.iter().fold(false, |x, v| x ^ v.z[j].bit);
-            if z != (a & b) { sig = Some("dealer AND shares do not XOR to the AND of the XORs of the inputs".into()); break; }
+            if z != (a & b) {
+                sig = Some(if cheat.is_some() { "dealer accepted an AND operand whose bit is not the one its MACs authenticate: the AND shares do not XOR to the AND of the authenticated values".to_string() } else { "dealer AND shares do not XOR to the AND of the XORs of the inputs".to_string() });
+                break;
+            }
         }
     }
     let sample = json!({"provider": "trusted dealer (direct)", "n": n, "random_shares": k, "and_triples": l_and, "relations_checked": relations});
-    Out { key: format!("dealer-direct n={n} k={k} l={l_and}"), end: res.end, sig, sample, relations }
+    Out { key: format!("dealer-direct n={n} k={k} l={l_and}{}", match cheat { Some((cp, w, _)) => format!(" unauthenticated-operand(party={cp},operand={w})"), None => String::new() }), end: res.end, sig, sample, relations }
 }
 
 fn dealer_mpc(i: usize, seed: u64) -> Out {
@@ -412,7 +426,7 @@ fn dealer_mpc(i: usize, seed: u64) -> Out {
 pub fn run(tier: &str, seed: u64) -> i32 {
     let thorough = tier == "thorough";
     let mut rep = Report::new("C10", tier, seed, "exploration");
-    rep.rule = "distributed preprocessing through the wrappers (coin tosses, fashare, beaver_aand as gen_auth_bits calls them) for n=2..5 and batch lengths {1,2,7,63,64,65,127,128,129} (n<=3), {1000,3099,3100(,5000)} and 280000 (n=2: bucket sizes 5, 4 and 3), left/right shares = public random linear combinations of fresh shares incl. all-zero and equal left/right; trusted dealer: a harness client speaks the dealer protocol directly (n=2..5) and mpc with the dealer is compared with the clear-text evaluator. Oracle: for every share and ordered pair (i,j) MAC_i[j] == key_j[i] ^ (bit_i & delta_j); XOR z == (XOR a) & (XOR b); multi-party coins equal at all parties, pairwise coins equal within and different across pairs; with one faulty party (n=3..5) that gives a different coin-toss contribution (commitment and matching opening, or opening only) to some honest parties, all honest parties that complete the coin toss hold identical coins. distinct = (provider, n, batch length class); every case is non-trivial".into();
+    rep.rule = "distributed preprocessing through the wrappers (coin tosses, fashare, beaver_aand as gen_auth_bits calls them) for n=2..5 and batch lengths {1,2,7,63,64,65,127,128,129} (n<=3), {1000,3099,3100(,5000)} and 280000 (n=2: bucket sizes 5, 4 and 3), left/right shares = public random linear combinations of fresh shares incl. all-zero and equal left/right; trusted dealer: a harness client speaks the dealer protocol directly (n=2..5) and mpc with the dealer is compared with the clear-text evaluator; in every third dealer session one party (every index) hands in an AND operand with a flipped bit and untouched MACs: the dealer refuses, or the AND shares still XOR to the AND of the authenticated values. Oracle: for every share and ordered pair (i,j) MAC_i[j] == key_j[i] ^ (bit_i & delta_j); XOR z == (XOR a) & (XOR b); multi-party coins equal at all parties, pairwise coins equal within and different across pairs; with one faulty party (n=3..5) that gives a different coin-toss contribution (commitment and matching opening, or opening only) to some honest parties, all honest parties that complete the coin toss hold identical coins. distinct = (provider, n, batch length class); every case is non-trivial".into();
     rep.assumptions = vec!["bucket size 3 (>= 280000 triples per batch) is exercised once for n=2 in quick, and for n=2 and n=3 in thorough".into()];
     let n_dist = if thorough { 960 } else { 320 };
     let n_dd = if thorough { 640 } else { 192 };
